@@ -205,7 +205,8 @@ CLAIMS: dict[str, tuple[str, str, str, str]] = {
         "ordered between siblings); container_map — the end-line patch of a container encloses the nested loop's "
         "stages (maps nest). The map contract is PROVED for code, fence, hr, heading, paragraph (Props/C03b.lean "
         "mapOK_*), giving the unconditional mini_staged for that sub-parser (model tied by the `miniblock` "
-        "differential runs). MISSING: for the other rules the map contract is a hypothesis (monitored on every real rule call); "
+        "differential runs); with block quotes (Props/C03c.lean): loop_maps_final (stages end no later than the loop's "
+        "final line), mapOK of the quote rule (its tokens lie inside its patched map), q_staged. MISSING: for the other rules the map contract is a hypothesis (monitored on every real rule call); "
         "'starts/ends on a non-blank line', inline content lines and coverage of every non-blank line are decided "
         "by the oracle (the property's predicate on streams and env; bounded-exhaustive line documents). Known "
         "finding K-C03-1 (str.strip() drops lines made of Unicode blanks from inline content).",
